@@ -1086,6 +1086,10 @@ more:
 	if (i < argi->nargs) {
 		bix += snprintf(BUF, BSZ, "?tuid=%s", argi->args[i++]);
 		CHK_BIX();
+		if (UNLIKELY(bix + strlenof(vers) >= sizeof(buf))) {
+			/* not even this one fits along with the version suffix */
+			goto reqstr_err;
+		}
 	}
 	for (int n; i < argi->nargs; i++, bix += n) {
 		n = snprintf(BUF, BSZ, "&tuid=%s", argi->args[i]);
